@@ -257,9 +257,11 @@ def recursion_via(exc):
     """what recursed (from the traceback of the real code): 'include' = p_compilerDirective frames (a file including
     itself / an include cycle), 'superclass' = p_mp_createClass repairing CIM_ERR_INVALID_SUPERCLASS (10) by compiling the
     superclass file, 'dependency' = p_mp_createClass repairing an unresolved reference/EmbeddedInstance class
-    (codes 4, 6, 1), 'qualifier_files' = p_qualifier compiling qualifiers.mof / qualifiers_optional.mof, else 'other'"""
+    (codes 4, 6, 1), 'qualifier_files' = p_qualifier compiling qualifiers.mof / qualifiers_optional.mof,
+    'getclass_superclass_chain' = MOFWBEMConnection.GetClass(LocalOnly=False) calling itself along the superclasses,
+    else 'other'"""
     tb = exc.__traceback__
-    n_inc = n_super = n_dep = n_qual = 0
+    n_inc = n_super = n_dep = n_qual = n_get = 0
     while tb is not None:
         code = tb.tb_frame.f_code
         if code.co_filename.endswith('_mof_compiler.py'):
@@ -267,6 +269,8 @@ def recursion_via(exc):
                 n_inc += 1
             elif code.co_name == 'p_qualifier':
                 n_qual += 1
+            elif code.co_name == 'GetClass':
+                n_get += 1
             elif code.co_name == 'p_mp_createClass':
                 ec = tb.tb_frame.f_locals.get('errcode')
                 if ec == 10:
@@ -276,7 +280,8 @@ def recursion_via(exc):
         tb = tb.tb_next
     best = max(n_inc, n_super, n_dep, n_qual)
     if best < 3:
-        return 'other'
+        # no nesting of compile_file at all: the repository's GetClass following a superclass chain that is a cycle
+        return 'getclass_superclass_chain' if n_get > 50 else 'other'
     if best == n_inc:
         return 'include'
     if best == n_super:
@@ -352,6 +357,14 @@ def position_verdict(out, texts):
         return 'column_beyond_line:fits_no_line'
     if not (isinstance(ctx, list) and all(isinstance(x, str) for x in ctx)):
         return 'context_not_lines'
+    if out.get('site') == 'p_error' and len(ctx) >= 2:
+        # an error reported at a token: lineno, column and context all come from that token, so the context must show
+        # (the beginning of) exactly that line of exactly that input -- "the position names the input the error is in"
+        actual = lines[ln - 1]
+        shown = ctx[-2]
+        if not (actual.startswith(shown) or actual.rstrip('\r').startswith(shown) or
+                actual.lstrip('\r').startswith(shown.lstrip('\r'))):
+            return 'context_is_not_that_line'
     return None
 
 
@@ -402,11 +415,20 @@ _REF = {}
 
 
 def good_reference(wd):
-    """result of the GOOD compile on a fresh compiler (once per process)"""
+    """result of the GOOD compile on a fresh compiler (once per process); None if the GOOD compile itself fails on the
+    code under test (then _REF['fail'] holds its outcome)"""
     if 'ref' not in _REF:
-        comp = new_compiler()
-        comp.compile_file(wd.good_file(), 'c09/ref')
-        _REF['ref'] = repo_snapshot(comp.handle, 'c09/ref')
+        _REF['ref'] = None
+        try:
+            comp = new_compiler()
+            out = outcome_of(lambda: comp.compile_file(wd.good_file(), 'c09/ref'))
+            if out.get('ok'):
+                _REF['ref'] = repo_snapshot(comp.handle, 'c09/ref')
+            else:
+                _REF['fail'] = out
+        except Exception as e:       # noqa: even constructing the compiler or printing the objects may fail
+            site, raiser, rfile, via = site_of(e)
+            _REF['fail'] = {'exc': type(e).__name__, 'site': site, 'raiser': raiser, 'rfile': rfile, 'via_handle': via}
     return _REF['ref']
 
 
